@@ -2023,7 +2023,18 @@ class ExplodeFrame(ExplodeSeries):
 
     def _simplify_up(self, parent, dependents):
         if isinstance(parent, Projection):
-            return plain_column_projection(self, parent, dependents, [self.column])
+            columns = determine_column_projection(
+                self, parent, dependents, [self.column]
+            )
+            # always a frame: ``column`` is not an argument of Series.explode
+            columns = _convert_to_list(columns)
+            columns = [col for col in self.frame.columns if col in columns]
+            if columns == self.frame.columns:
+                return
+            return type(parent)(
+                type(self)(self.frame[columns], *self.operands[1:]),
+                *parent.operands[1:],
+            )
 
 
 class Drop(Elemwise):
